@@ -75,10 +75,7 @@ def _module_state(ctx, col):
 def run(ctx: Context, col) -> None:
     _module_state(ctx, col)
     col.floor("R19.5", 1)
-    m = ctx.repo.module("mdpax.utils.spaces")
-    fn = m.functions.get("create_range_space")
-    if fn is None:
-        raise AnalysisError("anchor vanished: mdpax.utils.spaces.create_range_space")
+    m, fn = ctx.repo.public_function("mdpax.utils.spaces.create_range_space")
     file = m.relpath
     I = Interp(ctx.ct, None, {}, axes={"MINS": ("dim",), "MAXS": ("dim",), "VECTOR": ("dim",)})
     MINS, MAXS, VEC = S("MINS"), S("MAXS"), S("VECTOR")
